@@ -40,6 +40,8 @@ def gen_leaf(rng, common, kinds, leaf_kind=None, small=False):
             shape = ()
         s = gen.gen_const_struct(rng, shape=shape, kind=kind)
     s["as"] = "poly_T" if lk == "poly" and len(s["shape"]) >= 2 and rng.random() < .15 else lk
+    if s["as"] == "poly" and len(s["names"]) >= 2 and rng.random() < .15:
+        s["as"] = "poly_perm"     # same polynomial, names declared in another order
     return s
 
 
@@ -94,7 +96,7 @@ def bound_of(tree, env):
 def poly_side(tree, env):
     """does evaluating this subtree with Python operators certainly go through numpoly?"""
     if tree[0] == "leaf":
-        return env[tree[1]]["as"] in ("poly", "poly_T")
+        return env[tree[1]]["as"] in ("poly", "poly_T", "poly_perm")
     if tree[0] in ("neg", "pos", "pow"):
         return poly_side(tree[1], env)
     return poly_side(tree[1], env) or poly_side(tree[2], env)
@@ -242,7 +244,7 @@ def gen_powarr(rng, idx):
     if not sa and not sk:
         sk = (2,)
     a = gen.gen_struct(rng, shape=sa, kind="int", nterms=int(rng.integers(0, 4)), maxexp=2, lim=2)
-    a["as"] = "poly"
+    a["as"] = "poly_T" if len(sa) >= 2 and rng.random() < .35 else "poly"
     n = int(numpy.prod(sk, dtype=int))
     ks = [int(x) for x in rng.integers(0, 4, size=n)]
     return {"id": idx, "prop": "C01", "op": "powarr", "opts": DEFAULT_OPTS, "a": a, "kshape": list(sk), "ks": ks,
@@ -253,7 +255,7 @@ def run_powarr(ctx, cases, monitor):
     drv = [{"id": c["id"], "op": "powarr", "opts": c["opts"], "a": {k: c["a"][k] for k in ("names", "shape", "terms")},
             "kshape": c["kshape"], "ks": c["ks"]} for c in cases]
     for c, model in zip(cases, run_driver(drv)):
-        a = gen.materialize(c["a"])
+        a = gen.materialize(c["a"], c["a"].get("as", "poly"))
         k = numpy.array(c["ks"], dtype=int).reshape(tuple(c["kshape"]))
         kobj = k if c["kas"] == "ndarray" else k.tolist() if c["kas"] == "list" else numpoly.polynomial(k)
         ctx.evaluations += 1
